@@ -5,10 +5,12 @@ import (
 	"math/rand"
 	"net/http"
 	"net/http/httptest"
+	"runtime"
 	"sort"
 	"strconv"
 	"strings"
 	"sync"
+	"sync/atomic"
 
 	"github.com/netflix/rend/metrics"
 )
@@ -220,6 +222,63 @@ func init() {
 				if ok {
 					rep.Validated++
 				}
+			}
+		}
+
+		// ---- min and max of a period under concurrent observers: 4 goroutines released together,
+		// each with one value, many rounds; the period read afterwards reports the true extremes
+		{
+			id := metrics.AddHistogram(fmt.Sprintf("verif_extremes_%d", seed), false, nil)
+			metrics.VerifHistPeriod(id)
+			rounds := 20000
+			if thorough {
+				rounds = 200000
+			}
+			const g = 4
+			var ready, goFlag int32
+			vals := make([]uint64, g)
+			done := make(chan struct{}, g)
+			stop := int32(0)
+			for i := 0; i < g; i++ {
+				go func(i int) {
+					gen := int32(0)
+					for {
+						for atomic.LoadInt32(&goFlag) == gen {
+							if atomic.LoadInt32(&stop) != 0 {
+								return
+							}
+							runtime.Gosched()
+						}
+						gen = atomic.LoadInt32(&goFlag)
+						metrics.ObserveHist(id, vals[i])
+						done <- struct{}{}
+					}
+				}(i)
+			}
+			_ = ready
+			bad := 0
+			crumb("a histogram observed by 4 goroutines at the same moment, then read", nil)
+			for round := 0; round < rounds && bad == 0; round++ {
+				base := uint64(1000 + round%7)
+				// every goroutine carries a new extreme relative to the previous ones' order
+				vals[0], vals[1], vals[2], vals[3] = base+10, base+20, base-10, base-20
+				metrics.ObserveHist(id, base)
+				atomic.AddInt32(&goFlag, 1)
+				for i := 0; i < g; i++ {
+					<-done
+				}
+				count, _, min, max, _ := metrics.VerifHistPeriod(id)
+				if count != g+1 || min != base-20 || max != base+20 {
+					bad++
+					viol(fmt.Sprintf("a period observed as %d, then concurrently %d, %d, %d, %d is reported with count %d, min %d, max %d (round %d)", base, vals[0], vals[1], vals[2], vals[3], count, min, max, round),
+						"hist-concurrent-extremes", map[string]interface{}{"round": round})
+				}
+			}
+			atomic.StoreInt32(&stop, 1)
+			rep.Evaluations += rounds
+			rep.Distribution["concurrent-extreme-rounds"] += rounds
+			if bad == 0 {
+				rep.Validated++
 			}
 		}
 
